@@ -174,6 +174,16 @@ def _new_schema(ctx: Ctx, dsb: ClassInfo, union: bool) -> AObj:
     return me
 
 
+def _value_record(kind: str, args: List[Any]) -> Any:
+    """an expression value as an inert record of its constructor arguments.  A further argument that merely names the class of
+    the elements given (a set told its element type) says nothing the elements do not say: it is dropped when it agrees with
+    them and kept - so that the comparison fails - when it does not."""
+    args = [tuple(a) if isinstance(a, list) else a for a in args]
+    if kind == "Set" and len(args) == 2 and isinstance(args[1], ClassInfo) and isinstance(args[0], tuple) and args[0] and all(isinstance(x, tuple) and x and x[0] == args[1].name for x in args[0]):
+        args = args[:1]
+    return (kind,) + tuple(args)
+
+
 def _expr_hook(ctx: Ctx, mod: Any, cls: Optional[ClassInfo]) -> Any:
     """layout hook + the expression-value constructors as inert records + super()._attribute(x) as a marker"""
     lh = _layout_hook(ctx, mod, cls)
@@ -188,8 +198,7 @@ def _expr_hook(ctx: Ctx, mod: Any, cls: Optional[ClassInfo]) -> Any:
             if isinstance(e.func, ast.Attribute) and isinstance(e.func.value, ast.Call) and dotted(e.func.value.func) == "super":
                 return ("SUPER", e.func.attr) + tuple(f.fold(a) for a in e.args)
             if last in ("Rational", "Set", "String", "Boolean") and name.split(".")[0] in ("_expression", last):
-                args = [f.fold(a) for a in e.args]
-                return (last,) + tuple(tuple(a) if isinstance(a, list) else a for a in args)
+                return _value_record(last, [f.fold(a) for a in e.args] + [f.fold(k_.value) for k_ in e.keywords])
             if name == "map" and len(e.args) == 2:
                 k = None
                 try:
@@ -201,6 +210,87 @@ def _expr_hook(ctx: Ctx, mod: Any, cls: Optional[ClassInfo]) -> Any:
         return NotImplemented
 
     return hook
+
+
+def rule_identifiers(ctx: Ctx, rule: Optional[str] = None) -> None:
+    """identifier resolution on one builder driven through its public callbacks (shared with C03.R7: the evaluated values of a
+    section are those of that section's own text); recorded under the current rule, or under `rule` when given"""
+    repo = ctx.repo
+    # resolve_top_level_identifier
+    dtb = ctx.cls("_data_type_builder.DataTypeBuilder")
+    rt = dtb.methods.get("resolve_top_level_identifier")
+    if rt is None:
+        raise AnalysisError("anchor resolve_top_level_identifier missing")
+    from . import builder_common as B
+
+    # the same builder, driven through its public callbacks, is asked for `_offset_` and for constants while the current
+    # section grows and a new section begins: every answer must be that of the current section as it is *now*
+    def T(i: int, a: int = 1) -> Sym:
+        return Sym(bit_length_set=TBls.var("T%d" % i, a), alignment_requirement=a, name="T%d" % i)
+
+    VAL1, VAL2 = Sym(_kind_="value", label="K of the request"), Sym(_kind_="value", label="K of the response")
+
+    def fresh() -> Tuple[Any, Any]:
+        b_, _run, hook_ = B.make_builder(ctx, base_hook=_expr_hook(ctx, rt.module, dtb))
+        return b_, hook_
+
+    def call(b_: Any, hook_: Any, name: str, *args: Any) -> Any:
+        env = {"b": b_}
+        env.update({"a%d" % i: a for i, a in enumerate(args)})
+        try:
+            return Folder(env, repo, rt.module, dtb, hook_).fold(ast.parse("b.%s(%s)" % (name, ", ".join("a%d" % i for i in range(len(args)))), mode="eval").body)
+        except Raised as r:
+            return "raise " + r.cls_name
+        except Unfoldable as ex:
+            raise AnalysisError("DataTypeBuilder.%s: cannot evaluate over abstract arguments: %s" % (name, ex))
+
+    def elements(term: Any) -> str:
+        return repr(("Set", (("Rational", ("ELEMENTS-OF", term.term)),)))
+
+    # a state: which fields the request has, whether the response has begun and which fields it has
+    states = {
+        "request, 1 field": ([0], None), "request, 2 fields": ([0, 1], None), "response, no field": ([0], []),
+        "response, 1 field": ([0, 1], [2]), "response, 2 fields": ([0, 1], [2, 3]),
+    }
+    bad_seq = []
+    for a_label, a_state in states.items():
+        for b_label, b_state in states.items():
+            if (a_state[1] is not None and b_state[1] is None) or len(b_state[0]) < len(a_state[0]) or (a_state[1] is not None and (b_state[1] is None or len(b_state[1]) < len(a_state[1]) or b_state[0] != a_state[0])):
+                continue  # a definition only grows
+            b_, hook_ = fresh()
+            cur_rq: List[int] = []
+            cur_rs: Optional[List[int]] = None
+            for label, (rq, rs) in ((a_label, a_state), (a_label + " (asked again)", a_state), (b_label, b_state)):
+                for i in rq[len(cur_rq):]:
+                    call(b_, hook_, "on_field", T(i), "f%d" % i)
+                    call(b_, hook_, "on_attribute_comment", "")
+                    cur_rq.append(i)
+                if rs is not None and cur_rs is None:
+                    call(b_, hook_, "on_service_response_marker")
+                    cur_rs = []
+                for i in (rs or [])[len(cur_rs or []):]:
+                    call(b_, hook_, "on_field", T(i), "f%d" % i)
+                    call(b_, hook_, "on_attribute_comment", "")
+                    cur_rs.append(i)  # type: ignore
+                now = cur_rs if cur_rs is not None else cur_rq
+                want = elements(spec_structure([T(i) for i in now]))
+                got = call(b_, hook_, "resolve_top_level_identifier", "_offset_")
+                ctx.count()
+                if repr(got) != want:
+                    bad_seq.append({"asked in": "%s, then %s" % (a_label, b_label), "at": label, "found": repr(got)[:140], "expected": want[:140]})
+    # constants are looked up in the current section only
+    b_, hook_ = fresh()
+    call(b_, hook_, "on_constant", T(9), "K", VAL1)
+    call(b_, hook_, "on_attribute_comment", "")
+    results = {"K in the request": call(b_, hook_, "resolve_top_level_identifier", "K"), "nope": call(b_, hook_, "resolve_top_level_identifier", "nope")}
+    call(b_, hook_, "on_service_response_marker")
+    results["K in the response before it is defined there"] = call(b_, hook_, "resolve_top_level_identifier", "K")
+    call(b_, hook_, "on_constant", T(9), "K", VAL2)
+    call(b_, hook_, "on_attribute_comment", "")
+    results["K in the response"] = call(b_, hook_, "resolve_top_level_identifier", "K")
+    ctx.count(4)
+    want_r = {"K in the request": VAL1, "nope": "raise UndefinedIdentifierError", "K in the response before it is defined there": "raise UndefinedIdentifierError", "K in the response": VAL2}
+    ctx.check(not bad_seq and all(results[k] is want_r[k] or results[k] == want_r[k] for k in want_r), rt.short, "_offset_ -> Set(map(Rational, current schema's offset)) at every point of a growing two-section definition; constants of the current schema by name", "`_offset_` evaluates to the set of lengths of everything before this point in the current schema", rt.where(), {"offset": bad_seq[:3], "identifiers": {k: repr(getattr(v, "label", v))[:80] for k, v in results.items()}}, rule=rule)
 
 
 def rule_r3(ctx: Ctx) -> None:
@@ -290,81 +380,8 @@ def rule_r3(ctx: Ctx) -> None:
     if not sel:
         raise AnalysisError("_make_composite: the choice between UnionType and StructureType was not found")
     ctx.check(all(sel), mk.short, "UnionType iff the schema is a union", "the intrinsic and the final type choose union vs structure by the same flag", mk.where(), nontrivial=False)
-    # resolve_top_level_identifier
-    dtb = ctx.cls("_data_type_builder.DataTypeBuilder")
-    rt = dtb.methods.get("resolve_top_level_identifier")
-    if rt is None:
-        raise AnalysisError("anchor resolve_top_level_identifier missing")
-    from . import builder_common as B
-
-    # the same builder, driven through its public callbacks, is asked for `_offset_` and for constants while the current
-    # section grows and a new section begins: every answer must be that of the current section as it is *now*
-    def T(i: int, a: int = 1) -> Sym:
-        return Sym(bit_length_set=TBls.var("T%d" % i, a), alignment_requirement=a, name="T%d" % i)
-
-    VAL1, VAL2 = Sym(_kind_="value", label="K of the request"), Sym(_kind_="value", label="K of the response")
-
-    def fresh() -> Tuple[Any, Any]:
-        b_, _run, hook_ = B.make_builder(ctx, base_hook=_expr_hook(ctx, rt.module, dtb))
-        return b_, hook_
-
-    def call(b_: Any, hook_: Any, name: str, *args: Any) -> Any:
-        env = {"b": b_}
-        env.update({"a%d" % i: a for i, a in enumerate(args)})
-        try:
-            return Folder(env, repo, rt.module, dtb, hook_).fold(ast.parse("b.%s(%s)" % (name, ", ".join("a%d" % i for i in range(len(args)))), mode="eval").body)
-        except Raised as r:
-            return "raise " + r.cls_name
-        except Unfoldable as ex:
-            raise AnalysisError("DataTypeBuilder.%s: cannot evaluate over abstract arguments: %s" % (name, ex))
-
-    def elements(term: Any) -> str:
-        return repr(("Set", (("Rational", ("ELEMENTS-OF", term.term)),)))
-
-    # a state: which fields the request has, whether the response has begun and which fields it has
-    states = {
-        "request, 1 field": ([0], None), "request, 2 fields": ([0, 1], None), "response, no field": ([0], []),
-        "response, 1 field": ([0, 1], [2]), "response, 2 fields": ([0, 1], [2, 3]),
-    }
-    bad_seq = []
-    for a_label, a_state in states.items():
-        for b_label, b_state in states.items():
-            if (a_state[1] is not None and b_state[1] is None) or len(b_state[0]) < len(a_state[0]) or (a_state[1] is not None and (b_state[1] is None or len(b_state[1]) < len(a_state[1]) or b_state[0] != a_state[0])):
-                continue  # a definition only grows
-            b_, hook_ = fresh()
-            cur_rq: List[int] = []
-            cur_rs: Optional[List[int]] = None
-            for label, (rq, rs) in ((a_label, a_state), (a_label + " (asked again)", a_state), (b_label, b_state)):
-                for i in rq[len(cur_rq):]:
-                    call(b_, hook_, "on_field", T(i), "f%d" % i)
-                    call(b_, hook_, "on_attribute_comment", "")
-                    cur_rq.append(i)
-                if rs is not None and cur_rs is None:
-                    call(b_, hook_, "on_service_response_marker")
-                    cur_rs = []
-                for i in (rs or [])[len(cur_rs or []):]:
-                    call(b_, hook_, "on_field", T(i), "f%d" % i)
-                    call(b_, hook_, "on_attribute_comment", "")
-                    cur_rs.append(i)  # type: ignore
-                now = cur_rs if cur_rs is not None else cur_rq
-                want = elements(spec_structure([T(i) for i in now]))
-                got = call(b_, hook_, "resolve_top_level_identifier", "_offset_")
-                ctx.count()
-                if repr(got) != want:
-                    bad_seq.append({"asked in": "%s, then %s" % (a_label, b_label), "at": label, "found": repr(got)[:140], "expected": want[:140]})
-    # constants are looked up in the current section only
-    b_, hook_ = fresh()
-    call(b_, hook_, "on_constant", T(9), "K", VAL1)
-    call(b_, hook_, "on_attribute_comment", "")
-    results = {"K in the request": call(b_, hook_, "resolve_top_level_identifier", "K"), "nope": call(b_, hook_, "resolve_top_level_identifier", "nope")}
-    call(b_, hook_, "on_service_response_marker")
-    results["K in the response before it is defined there"] = call(b_, hook_, "resolve_top_level_identifier", "K")
-    call(b_, hook_, "on_constant", T(9), "K", VAL2)
-    call(b_, hook_, "on_attribute_comment", "")
-    results["K in the response"] = call(b_, hook_, "resolve_top_level_identifier", "K")
-    ctx.count(4)
-    want_r = {"K in the request": VAL1, "nope": "raise UndefinedIdentifierError", "K in the response before it is defined there": "raise UndefinedIdentifierError", "K in the response": VAL2}
-    ctx.check(not bad_seq and all(results[k] is want_r[k] or results[k] == want_r[k] for k in want_r), rt.short, "_offset_ -> Set(map(Rational, current schema's offset)) at every point of a growing two-section definition; constants of the current schema by name", "`_offset_` evaluates to the set of lengths of everything before this point in the current schema", rt.where(), {"offset": bad_seq[:3], "identifiers": {k: repr(getattr(v, "label", v))[:80] for k, v in results.items()}})
+    rule_identifiers(ctx)
+    rt = ctx.cls("_data_type_builder.DataTypeBuilder").methods["resolve_top_level_identifier"]
     # _bit_length_ / _extent_ / constants as attributes of a type: instances are constructed over abstract arguments and asked
     from . import c05 as M
 
@@ -378,8 +395,7 @@ def rule_r3(ctx: Ctx) -> None:
             name = dotted(e.func) or ""
             last = name.split(".")[-1]
             if last in ("Rational", "Set", "String", "Boolean") and name.split(".")[0] in ("_expression", last):
-                args = [f.fold(a) for a in e.args]
-                return (last,) + tuple(tuple(a) if isinstance(a, list) else a for a in args)
+                return _value_record(last, [f.fold(a) for a in e.args] + [f.fold(k_.value) for k_ in e.keywords])
             if name == "map" and len(e.args) == 2:
                 try:
                     k = f.fold(e.args[0])
@@ -427,7 +443,7 @@ def rule_r4_keys(ctx: Ctx) -> None:
     from . import approx_keys
 
     ctx.rule("C08.R4", "offsets are computed for the base offset set given: the offset iterators and the `_offset_` intrinsic hold no table or memo keyed by the (approximate) equality of a length set or type", min_instances=1)
-    approx_keys.rule(ctx, "C08.R4", ["_serializable", "_data_type_builder"], "two different base offset sets may compare equal (min, max and a few residues): offsets looked up by equality belong to another base", "pydsdl/_serializable/_composite.py")
+    approx_keys.rule(ctx, "C08.R4", ["_serializable", "_data_type_builder"], "two different base offset sets may compare equal (min, max and a few residues): offsets looked up by equality belong to another base", "pydsdl/_serializable/_composite.py", roots=["iterate_fields_with_offsets", "enumerate_elements_with_offsets", "resolve_top_level_identifier", "_attribute"], min_reached=15)
 
 
 def run(ctx: Ctx) -> None:
